@@ -1502,15 +1502,18 @@ class _Stop(Exception):
     pass
 
 
-def deep_value(spec, mat: Materialised, d: int, fan: int = 2, _counter=None, _level=0):
+def deep_value(spec, mat: Materialised, d: int, fan: int = 2, _counter=None, _level=0, falsy=False):
     """A valid value of `spec` whose recursion through `ref` edges is followed exactly `d` times along
     every path (containers get `fan` elements on the first two levels, one below)."""
     c = _counter if _counter is not None else itertools.count(1)
-    D = lambda s, dd=d, lv=_level: deep_value(s, mat, dd, fan, c, lv)  # noqa: E731
+    D = lambda s, dd=d, lv=_level: deep_value(s, mat, dd, fan, c, lv, falsy)  # noqa: E731
     k = spec["k"]
     if k == "scalar":
         t = spec["t"]
         n = next(c)
+        if falsy and t in ("int", "str", "float", "bool"):
+            # leaves that count as false: 0, "", 0.0, False - valid values which a truth test takes for "nothing there"
+            return {"int": 0, "str": "", "float": 0.0, "bool": False}[t]
         return {"int": n, "str": f"s{n}", "float": n + 0.5, "bool": bool(n % 2)}.get(t) if t in ("int", "str", "float", "bool") \
             else eval(_SCALAR_DEFAULT[t], {"decimal": decimal, "fractions": fractions, "uuid": uuid, "pathlib": pathlib, "re": re, "datetime": datetime})  # noqa: S307
     if k == "none":
@@ -1524,7 +1527,7 @@ def deep_value(spec, mat: Materialised, d: int, fan: int = 2, _counter=None, _le
     if k == "ref":
         if d <= 0:
             raise _Stop()
-        return deep_value(mat.resolve(spec), mat, d - 1, fan, c, _level + 1)
+        return deep_value(mat.resolve(spec), mat, d - 1, fan, c, _level + 1, falsy)
     width = fan if _level < 2 else 1
     # only the first element / first recursive field continues the full-depth chain; siblings get
     # depth <= 1 so that the value grows linearly with d (a full tree would be exponential)
